@@ -12,6 +12,7 @@
 # See the License for the specific language governing permissions and
 # limitations under the License.
 
+import re
 from functools import cached_property
 from pathlib import PurePosixPath
 
@@ -53,7 +54,9 @@ class CppExternalType(BaseModel):
 def deprecated(decl: BaseCommentModel, prefix: str = "", postfix: str = ""):
     message = ""
     if isinstance(decl.deprecated, str):
-        message = '("' + decl.deprecated.replace('\\', r'\\').replace('\n', r'\n').replace('"', r'\"') + '")'
+        # characters that str.splitlines() treats as line breaks must not reach the literal (the indent filter would break it)
+        text = re.sub('[\r\x0b\x0c\x1c\x1d\x1e\x85\u2028\u2029]', ' ', decl.deprecated)
+        message = '("' + text.replace('\\', r'\\').replace('\n', r'\n').replace('"', r'\"') + '")'
     return f"{prefix}[[deprecated{message}]]{postfix}" if decl.deprecated else ""
 
 
